@@ -763,7 +763,10 @@ func removeFiles(dir string, fnames []string) error {
 	for _, fname := range fnames {
 		verifOnRemove(path.Join(dir, fname))
 		err := os.Remove(path.Join(dir, fname))
-		if err != nil {
+		if err != nil && !os.IsNotExist(err) {
+			// A file that has vanished meanwhile (for example, removed by
+			// the asynchronous cleanup of a just closed store instance of
+			// this same directory) needs no removal.
 			return err
 		}
 	}
